@@ -15,7 +15,7 @@ pub const ALPHABET: &[char] = &[
 const SIMPLE: usize = 7;
 
 /// Characters that never occur in a generated pattern literal (but may be matched by classes).
-pub const FOREIGN: &[char] = &['z', 'Q', '7', '#', 'ü', '\u{3042}', '\u{10348}', '\u{7f}'];
+pub const FOREIGN: &[char] = &['z', 'Q', '7', '#', 'ü', '\u{3042}', '\u{10348}', '\u{7f}', '\0'];
 
 #[derive(Debug, Clone)]
 pub struct GenParams {
@@ -31,6 +31,8 @@ pub struct GenParams {
     pub max_input_chars: usize,
     pub class_depth: usize,
     pub transitions: bool,
+    /// lower bound for the number of modes (mode-graph checks want >= 2 most of the time)
+    pub min_modes: usize,
 }
 
 impl GenParams {
@@ -47,6 +49,7 @@ impl GenParams {
             max_input_chars: 24,
             class_depth: 2,
             transitions: false,
+            min_modes: 1,
         }
     }
     pub fn thorough() -> Self {
@@ -59,11 +62,19 @@ impl GenParams {
         }
     }
     pub fn for_tier(thorough: bool) -> Self {
-        if thorough {
+        let mut p = if thorough {
             Self::thorough()
         } else {
             Self::quick()
+        };
+        // coverage-guided campaigns run under ASan in short-lived processes: measuring the base
+        // sets of named classes (a scan of all scalar values each) would dominate them
+        static NO_NAMED: std::sync::OnceLock<bool> = std::sync::OnceLock::new();
+        if *NO_NAMED.get_or_init(|| std::env::var("VERIF_GEN_NO_NAMED").is_ok()) {
+            p.named_classes = false;
+            p.unicode_named = false;
         }
+        p
     }
     pub fn with_lookaheads(mut self, per_256: usize) -> Self {
         self.lookahead_per_256 = per_256;
@@ -345,7 +356,8 @@ pub fn gen_mode(d: &mut Dec, p: &GenParams, name: &str) -> ModeSpec {
 pub const MODE_NAMES: [&str; 6] = ["INITIAL", "M1", "M2", "M3", "M4", "M5"];
 
 pub fn gen_modes(d: &mut Dec, p: &GenParams) -> Vec<ModeSpec> {
-    let n = 1 + d.below(p.max_modes.max(1));
+    let lo = p.min_modes.clamp(1, p.max_modes.max(1));
+    let n = lo + d.below(p.max_modes.max(1) - lo + 1);
     let mut modes: Vec<ModeSpec> = (0..n).map(|i| gen_mode(d, p, MODE_NAMES[i])).collect();
     if p.transitions {
         // the pool of token types any mode produces
